@@ -9,6 +9,7 @@
 import BioCantor.Proofs.PointMaps
 import BioCantor.Proofs.RelInterval
 import BioCantor.Proofs.RelativeTo
+set_option autoImplicit false   -- an unresolved name in a statement must be an error, never a bound variable
 namespace BioCantor.Props.C01
 open BioCantor BioCantor.Spec BioCantor.Model BioCantor.Proofs
 
